@@ -406,14 +406,14 @@ func (w *World) EndSession(r opfix.Router, hint *Tok, clientID string) {
 }
 
 type Exch struct {
-	Cred       Cred
-	Subj       *Tok
-	SubjType   string // TAccess ...
-	Actor      *Tok
-	ActorType  string
-	Requested  string
-	Scopes     []string
-	Audience   []string
+	Cred      Cred
+	Subj      *Tok
+	SubjType  string // TAccess ...
+	Actor     *Tok
+	ActorType string
+	Requested string
+	Scopes    []string
+	Audience  []string
 }
 
 func (w *World) Exchange(r opfix.Router, x Exch) {
